@@ -14,12 +14,61 @@ from vlib.harness import Watch, bootstrapped_pipe
 from vlib.runner import HarnessError
 
 
+BOOTSTRAP_WINDOW_SLOTS = 3
+
+
 def bootstrapped_state(ns_all=(), circuit_status="", stream_status="", address_mappings="",
-                       entry_guards="", pid="4242", handler=None, chunk=None, require=True):
+                       entry_guards="", pid="4242", handler=None, chunk=None, require=True,
+                       during=(), subscribed_event="NEWCONSENSUS"):
     """ns_all: list of document lines (served as a data block).  The other values are strings
-    (single-line ``key=value`` replies) or lists (data blocks), as for ScriptedServer.info."""
+    (single-line ``key=value`` replies) or lists (data blocks), as for ScriptedServer.info.
+
+    ``during``: [(slot, event bytes), ...] - server-initiated bytes sent *inside* the bootstrap: Tor
+    emits an event only once it has acknowledged the SETEVENTS that subscribes to it, so slot k
+    (0 <= k < BOOTSTRAP_WINDOW_SLOTS) means "right behind the reply to the k-th command counted from the
+    first ``SETEVENTS`` naming ``subscribed_event``" - with today's command order behind the
+    acknowledgement itself (0), behind the next SETEVENTS (1), behind the ``GETINFO entry-guards`` answer
+    (2) - but never behind the reply to the *last* bootstrap command: a slot that would fall there (or
+    later) is moved in front of that last reply, so the bytes always arrive before the bootstrap can
+    complete.  Events of one slot keep their order.  Returns as usual; ``pipe.during_sent`` lists the
+    slots used."""
     from txtorcon import TorState
-    pipe, srv = bootstrapped_pipe(handler, chunk=chunk)
+    during = sorted(during, key=lambda t: t[0])
+    seen = {"k": None}
+    sent = []               # slots, in sending order
+    unsent = list(range(len(during)))
+    user_handler = handler
+    last_key = "process/pid"
+
+    def window_handler(line):
+        r = NotImplemented
+        if user_handler is not None:
+            r = user_handler(line)
+        if seen["k"] is None:
+            if not (line.startswith("SETEVENTS") and subscribed_event in line.split()):
+                return r
+            seen["k"] = 0
+        if r is None:
+            return r
+        if r is NotImplemented:
+            r = srv.builtin(line)
+        data = srv._enc(r) or b""
+        k = seen["k"]
+        seen["k"] += 1
+        if line == "GETINFO " + last_key:
+            # everything still unsent goes in front of the last answer
+            pre = b"".join(during[i][1] for i in unsent)
+            sent.extend(during[i][0] for i in unsent)
+            del unsent[:]
+            return pre + data
+        now = [i for i in unsent if during[i][0] == k]
+        for i in now:
+            unsent.remove(i)
+            sent.append(during[i][0])
+        return data + b"".join(during[i][1] for i in now)
+
+    pipe, srv = bootstrapped_pipe(window_handler if during else handler, chunk=chunk)
+    pipe.during_sent = sent
     srv.info.update({
         "ns/all": list(ns_all),
         "circuit-status": circuit_status,
@@ -31,6 +80,9 @@ def bootstrapped_state(ns_all=(), circuit_status="", stream_status="", address_m
     state = TorState(pipe.proto)
     watch = Watch(state.post_bootstrap, passthrough=True)
     pipe.pump()
+    if during and not pipe.escaped and watch.succeeded and len(sent) != len(during):
+        raise HarnessError("only %d of %d in-bootstrap events were sent; commands %r" % (
+            len(sent), len(during), pipe.commands))
     if require and not pipe.escaped and not watch.succeeded:
         raise HarnessError("TorState bootstrap did not complete: %r; commands %r" % (
             watch.outcome(), pipe.commands))
